@@ -11,3 +11,17 @@ PROPS['C04']={
    {'name':'verify_vec','module':'harness.C04','cls':'VerifyThreshold','quick':{'nk':2,'ns':3,'iter_kind':'vec'},'thorough':{'nk':3,'ns':4,'iter_kind':'vec'}},
    {'name':'verify_mapvalues','module':'harness.C04','cls':'VerifyThreshold','quick':{'nk':2,'ns':2,'iter_kind':'values'},'thorough':{'nk':3,'ns':3,'iter_kind':'values'}},
  ]}
+
+PIPE_ASSUME=['PublicKey::verify replaced by the ideal-signature oracle; MetadataWrapper::to_bytes stubbed to constant bytes (C05/C09 decide the encoding)',
+ 'link directory = ghost directory behind stubs of glob::glob and load_linkfile (file enumeration, reading and JSON parsing of link files are outside the claim); everything else in load_links_for_layout runs from MIR',
+ 'chrono::Utc::now = symbolic instant; chrono ordering modelled as (secs,nanos) lexicographic',
+ 'inspection execution (runlib::in_toto_run) and std::fs::write replaced by ghost-logging stubs',
+ 'std/dependency calls replaced by the listed models (coverage.trusted_base), validated on every run by native replay of sampled paths against the real crate (real ring signatures, real files, real clock)']
+
+PROPS['C02']={
+ 'bounds_statement':'in_toto_verify executed from MIR end-to-end over a ghost link directory: every subset of layout keys and step pubkeys, every u32 threshold, every population of link files (per key absent/present), every signature validity assignment, every hash-map order, within the shape bound.',
+ 'assumptions':PIPE_ASSUME,
+ 'obligations':[
+   {'name':'step_authorization','module':'harness.C02','cls':'StepAuthorization','quick':{'nfun':2,'nsig':1},'thorough':{'nfun':3,'nsig':2,'unknown_pubkey':True}},
+   {'name':'two_steps','module':'harness.C02','cls':'StepAuthorization','tier_only':'thorough','quick':{},'thorough':{'nfun':2,'nsig':1,'two_steps':True}},
+ ]}
